@@ -238,6 +238,8 @@ def close_spec(draw):
         "fee": draw(gen.fee_spec(gen.min_price(pr), kinds=("none", "none", "fixed", "prop"))),
         "close_dates": cd,
     }
+    if draw(st.integers(0, 2)) == 0:
+        spec["frames"]["closes"]["date_dtype"] = "object"
     if fi:
         spec["frames"]["notl"] = {"kind": "series", "values": [1e6] * n}
         spec["frames"]["coupons"] = {"kind": "frame", "cols": {t: [0.01] * n for t in tickers}}
@@ -329,6 +331,8 @@ def roll_spec(draw):
         "rolls": rolls,
         "tree": {"name": "root", "kind": "Strategy", "algos": stack, "children": list(tickers)},
     }
+    if draw(st.integers(0, 2)) == 0:
+        spec["frames"]["rolls"]["date_dtype"] = "object"
     return spec
 
 
